@@ -123,3 +123,15 @@ Theorem C19_source_impl_bounds :
   bounds_of "ConstDefault for GenericArrayImplOdd<T,U>" = Some ["T:ConstDefault"; "U:ConstDefault"] /\
   bounds_of "ConstDefault for GenericArray<T,U>" = Some ["U::ArrayType<T>:ConstDefault"; "U:ArrayLength"].
 Proof. repeat split. Qed.
+
+(* ---- T1: the signature of the inherent const_default (coq/gen/GenSigs.v gen_fn_sigs): a `pub const fn` of the block
+        `impl<T, U> GenericArray<T, U> where T: ConstDefault, Self: ConstDefault` -- a caller generic over T and the
+        length states exactly these two bounds ---- *)
+From Coq Require Import String.
+From GA Require Import SigDefs.
+From GAGen Require Import GenSigs.
+Local Open Scope string_scope.
+
+Theorem C19_source_signatures :
+  sig_of "GenericArray<T,U> where Self:ConstDefault,T:ConstDefault,U:ArrayLength" "const_default" = Some "pub const fn const_default () -> Self".
+Proof. repeat split. Qed.
